@@ -104,6 +104,9 @@ default_nc = find(r"num_concurrent: self\.num_concurrent\.unwrap_or\((\d+)\)", m
 gcr = find(r"fn get_child_result\((.*?)\n\}", strip_tests(process_rs), "fn get_child_result", "", props="C06,C16")
 status_by_success = bool(re.search(r"if output\.status\.success\(\)\s*\{", gcr or "")) and \
     ((gcr or "").find("output.status.success()") < ((gcr or "").find("from_slice") if "from_slice" in (gcr or "") else 10**9))
+# ... and only a JSON object is parsed as a result (serde would read the struct from an array as well; fix b0d082e)
+child_objects_only = (bool(re.search(r"let is_object = [^;]*==\s*Some\(&b'\{'\)", gcr or "")) and bool(re.search(r"\.filter\(\|_\|\s*is_object\)", gcr or ""))) \
+    or bool(re.search(r"\.is_object\(\)", gcr or ""))
 builtins = find(r"const BUILT_IN_TYPE_NAMES:[^=]*=\s*&\[(.*?)\];", spec_util, "BUILT_IN_TYPE_NAMES", "", props="C10")
 builtins = re.findall(r'"([^"]*)"', builtins or "")
 
@@ -195,6 +198,9 @@ def keysRegisteredBeforeAlloc : Bool := %s
 /-- process.rs `get_child_result`: the child's exit status is judged by `ExitStatus::success()` and before its output is parsed -/
 def childStatusBySuccessFirst : Bool := %s
 
+/-- process.rs `get_child_result`: only a document that is a JSON object is read as a result -/
+def childResultObjectsOnly : Bool := %s
+
 /-- meta.rs `AlgoConfigBuilder::build`: defaults, and the two rejections -/
 def defaultSampleSize : Nat := %s
 def defaultNumConcurrent : Nat := %s
@@ -208,7 +214,7 @@ end Cambrian.Generated
        json.dumps(def_prefix), json.dumps(member_prefix),
        "true" if abort_guard else "false", "true" if completion_guard else "false", json.dumps(csv_header or ""), lean_list(csv_fields), "true" if reap_echild_ok else "false", "true" if scale_clamped else "false",
        "true" if key_seen_max else "false", "true" if key_next_counter else "false", "true" if key_registered_first else "false",
-       "true" if status_by_success else "false",
+       "true" if status_by_success else "false", "true" if child_objects_only else "false",
        default_ss, default_nc, "true" if zero_ss_rejected else "false", "true" if zero_nc_rejected else "false")
 
 old = open(OUT).read() if os.path.exists(OUT) else ""
